@@ -103,28 +103,19 @@ func (m *ModuleCors) loadRuleData(query url.Values) (string, error) {
 // Add `Origin` in the Vary response header, to indicate to clients that server responses will differ based on the value
 // of the Origin request header
 func addVaryHeader(rspHeader bfe_http.Header) {
-	varyValue := rspHeader.Get(HeaderVary)
-	if len(varyValue) == 0 {
-		rspHeader.Set(HeaderVary, HeaderOrigin)
-		return
-	}
-
-	if varyValue == "*" {
-		return
-	}
-
-	needAddOrigin := true
-	items := strings.Split(varyValue, ",")
-	for _, item := range items {
-		if strings.TrimSpace(item) == HeaderOrigin {
-			needAddOrigin = false
-			break
+	// check all Vary header lines of response
+	for _, varyValue := range rspHeader[HeaderVary] {
+		items := strings.Split(varyValue, ",")
+		for _, item := range items {
+			item = strings.TrimSpace(item)
+			if item == "*" || strings.EqualFold(item, HeaderOrigin) {
+				return
+			}
 		}
 	}
 
-	if needAddOrigin {
-		varyValue += fmt.Sprintf(",%s", HeaderOrigin)
-	}
+	// keep existing Vary header lines
+	rspHeader.Add(HeaderVary, HeaderOrigin)
 }
 
 // set response header for preflight request
